@@ -490,6 +490,11 @@ class NFA(object):
         using `Thompson's constructions
         <https://en.wikipedia.org/wiki/Thompson%27s_construction>`_.
         """
+        # NB: The empty transitions of Thompson's construction are directed so
+        # they are added to 'transitions[None]' directly here:
+        # NFANode.add_transition would also add the reverse transition which
+        # lets the matcher run backwards through '?', '*' and '|' (e.g. 'a?'
+        # would match 'a a').
         if ast is None:
             node = NFANode()
             return cls(node, node)
@@ -502,7 +507,7 @@ class NFA(object):
             nfa_a = cls.from_ast(ast.a)
             nfa_b = cls.from_ast(ast.b)
 
-            nfa_a.final.add_transition(nfa_b.start)
+            nfa_a.final.transitions[None].add(nfa_b.start)
 
             return cls(nfa_a.start, nfa_b.final)
         elif isinstance(ast, Symbol):
@@ -515,11 +520,11 @@ class NFA(object):
             nfa_a = cls.from_ast(ast.a)
             nfa_b = cls.from_ast(ast.b)
 
-            nfa.start.add_transition(nfa_a.start)
-            nfa.start.add_transition(nfa_b.start)
+            nfa.start.transitions[None].add(nfa_a.start)
+            nfa.start.transitions[None].add(nfa_b.start)
 
-            nfa_a.final.add_transition(nfa.final)
-            nfa_b.final.add_transition(nfa.final)
+            nfa_a.final.transitions[None].add(nfa.final)
+            nfa_b.final.transitions[None].add(nfa.final)
 
             return nfa
         elif isinstance(ast, Star):
@@ -527,11 +532,11 @@ class NFA(object):
 
             sub_nfa = cls.from_ast(ast.expr)
 
-            nfa.start.add_transition(nfa.final)
-            nfa.start.add_transition(sub_nfa.start)
+            nfa.start.transitions[None].add(nfa.final)
+            nfa.start.transitions[None].add(sub_nfa.start)
 
-            sub_nfa.final.add_transition(sub_nfa.start)
-            sub_nfa.final.add_transition(nfa.final)
+            sub_nfa.final.transitions[None].add(sub_nfa.start)
+            sub_nfa.final.transitions[None].add(nfa.final)
 
             return nfa
 
